@@ -166,6 +166,57 @@ fn run_case(rec: &mut Recorder, header: &str, lines: &[String]) {
     }
 }
 
+/// The `variant` family must cover every variant of the REAL enums (names via the exhaustive
+/// matches of `encode.rs`): every variant at least once, every reference-holding variant with a
+/// dangling reference nested in it. A gap is reported as an oracle failure (`variant_coverage_gap`).
+fn variant_coverage_selfcheck(rec: &mut Recorder) {
+    use std::collections::BTreeSet;
+    let mut f = real::Filler(Rng::new(11));
+    let (mut seen_td, mut dangling_td, mut seen_sd, mut dangling_sd) = (BTreeSet::new(), BTreeSet::new(), BTreeSet::new(), BTreeSet::new());
+    let mut problems = vec![];
+    for pr in gen::variant_probes() {
+        if let Some(t) = &pr.td {
+            let name = encode::td_variant_name(&f.td(t));
+            if name != pr.variant {
+                problems.push(format!("probe labelled IdlTypeDef::{} builds IdlTypeDef::{name}", pr.variant));
+            }
+            seen_td.insert(name);
+            if pr.dangling {
+                dangling_td.insert(name);
+            }
+        }
+        if let Some(s) = &pr.sd {
+            let name = encode::sd_variant_name(&f.sd(s));
+            if name != pr.variant {
+                problems.push(format!("probe labelled IdlAccountSetDef::{} builds IdlAccountSetDef::{name}", pr.variant));
+            }
+            seen_sd.insert(name);
+            if pr.dangling {
+                dangling_sd.insert(name);
+            }
+        }
+    }
+    for (v, holder) in encode::TD_VARIANTS {
+        if !seen_td.contains(v) || (holder && !dangling_td.contains(v)) {
+            problems.push(format!("IdlTypeDef::{v} not exercised by the variant family"));
+        }
+    }
+    for (v, holder) in encode::SD_VARIANTS {
+        if !seen_sd.contains(v) || (holder && !dangling_sd.contains(v)) {
+            problems.push(format!("IdlAccountSetDef::{v} not exercised by the variant family"));
+        }
+    }
+    rec.extra.insert(
+        "variant_family".into(),
+        serde_json::json!({"IdlTypeDef_variants": seen_td.len(), "IdlTypeDef_with_dangling_ref": dangling_td.len(),
+            "IdlAccountSetDef_variants": seen_sd.len(), "IdlAccountSetDef_with_dangling_ref": dangling_sd.len()}),
+    );
+    if !problems.is_empty() {
+        rec.case("case variant_coverage_selfcheck");
+        rec.fail("variant_coverage_gap", &problems.join("; "));
+    }
+}
+
 fn corpus_cases(dir: &PathBuf) -> Vec<(String, Vec<String>)> {
     let mut out = vec![];
     let Ok(rd) = fs::read_dir(dir) else { return out };
@@ -227,6 +278,9 @@ fn c18(args: &Args) {
     gen::precedence_cases(&mut cases);
     gen::map_order_cases(&mut cases);
     gen::trim_cases(&mut cases, thorough);
+    gen::variant_cases(&mut cases);
+    gen::boundary_cases(&mut cases);
+    variant_coverage_selfcheck(&mut rec);
     let exhaustive_n = cases.len();
     // 2./3. seeded random graphs and single-edit mutants
     let mut rng = Rng::new(args.seed);
